@@ -356,6 +356,9 @@ func (this *partition) updateValue(notificationId uuid.UUID, id uuid.UUID, value
 		this.notificator.Notify(notificationId, err, false)
 		return nil
 	}
+	if metadata == nil {
+		metadata = make(index.Metadata)
+	}
 	for k, v := range vertex.Metadata() {
 		if _, exists := metadata[k]; !exists {
 			metadata[k] = v
@@ -404,6 +407,9 @@ func (this *partition) batchUpdateValue(notificationId uuid.UUID, items []*pb.Ba
 			continue
 		}
 		metadata := item.GetMetadata()
+		if metadata == nil {
+			metadata = make(map[string]string)
+		}
 		for k, v := range vertex.Metadata() {
 			if _, exists := metadata[k]; !exists {
 				metadata[k] = v
